@@ -15,8 +15,9 @@ Validity hypothesis of the flat lift/dealloc/call theorems: fixed-length lists a
 (`flistsNonEmpty`; the component-model rule wasmparser enforces — wit-parser itself accepts `list<T, 0>`,
 and `lift_panics_on_empty_flist` shows the hypothesis is needed: the real generator panics there too,
 abi-trace `list<tuple<17×u32>, 0>`; recorded in DESIGN as outside "valid world").
-NOT proved: the host-side directions of `call` (export-lower, import-lift: used only by the C02 host
-model, no backend) and `GuestImportAsync`/stackful variants (`todo!()` in the source, used by no backend).
+Also proved: the two host-side directions of `call` (export-lower, import-lift: used only by the C02 host
+model, by no backend).  NOT proved, and false: `GuestImportAsync` with indirect parameters and the stackful
+variants (`todo!()` in the source, passed to `call` by no backend).
 Backend half (each backend's own `match` arms): `Props/C16Backends.lean`.
 -/
 namespace Witverif.Props.C16
@@ -72,6 +73,18 @@ theorem call_never_panics (canon : Ty → Bool) (f : Func) (hv : f.valid = true)
     (∃ ss, call canon .guestExport false true f = .ok ss) :=
   ⟨call_import_total canon f hv, call_export_total canon f hv,
    call_export_async_total canon _ (.inl rfl) f hv, call_export_async_total canon _ (.inr rfl) f hv⟩
+
+/-- The host-side directions (caller of an export, callee of an import) never panic either; `methodOk`:
+a method's first parameter is its `self` handle. -/
+theorem call_hostside_never_panics (canon : Ty → Bool) (f : Func) (hv : f.valid = true) (hm : f.methodOk = true) :
+    (∃ ss, call canon .guestExport true false f = .ok ss) ∧
+    (∃ ss, call canon .guestImport false false f = .ok ss) :=
+  ⟨call_export_hostside_total canon f hv hm, call_import_hostside_total canon f hv⟩
+
+/-- the `todo!()` of `call` that remains: async-lowered imports with indirect parameters (no backend passes
+this combination to `call`: Rust, MoonBit and Go write async imports by hand) -/
+theorem call_import_async_indirect_is_todo :
+    call (fun _ => false) .guestImportAsync true true ⟨false, List.replicate 5 .u32, none⟩ = .error .todo := rfl
 
 /-- `post_return` never panics where a backend emits it (`guest_export_needs_post_return`), and is an
 assertion failure exactly when the export does not return through a return area. -/
